@@ -234,6 +234,43 @@ def c_hook(ctx, case):
                  f"as {s!r}, which parses to {G.src(e2)}; it stands for {G.src(want)}")
 
 
+@check("C06.reread")
+def c_reread(ctx, case):
+    """Three steps on the one parser: the printed form is read, ANOTHER text is refused (leftover
+    input after a complete expression; an incomplete expression), the printed form is read
+    again: the same tree as the first time -- nothing a refused parse built comes back."""
+    (e, junk) = case
+    ctx.case(None)
+    ctx.count("read_refuse_read_again")
+    try:
+        s = str(e)
+        t1 = parse(s)
+    except RecursionError:
+        raise
+    except Exception:  # noqa: BLE001
+        return      # (C06.roundtrip judges printing / parsing by itself)
+    for g in junk:
+        try:
+            parse(g.replace("$", s))
+        except RecursionError:
+            raise
+        except Exception:  # noqa: BLE001
+            ctx.count("refused_between_reads")
+        try:
+            t2 = parse(s)
+        except RecursionError:
+            raise
+        except Exception as ex:  # noqa: BLE001
+            ctx.fail("C06.reread", case, f"raised:{type(ex).__name__}",
+                     f"parse({s!r}) worked, then {g!r} was refused, then parse({s!r}) raised {ex}")
+            return
+        if normal.typed_key(t2) != normal.typed_key(t1):
+            ctx.fail("C06.reread", case, "tree-changed-after-refusal",
+                     f"parse({s!r}) = {G.src(t1)}; after the refused parse of "
+                     f"{g.replace('$', s)!r} the same call returns {G.src(t2)}")
+            return
+
+
 def _plainnum(x):
     import numpy as np
     if isinstance(x, np.bool_):
@@ -442,6 +479,11 @@ def workload(ctx):
                     ctx.case(("hook", parent, pos, normal.typed_key(_dereference(ub))), True, n=0)
                     ctx.run("C06.hook", (e,))
                     ctx.run("C06.hook", (p.Product((C, p.Power(e, 2))),))
+        junks = [["$ )", "x y"], ["(a - b) // c )", "$ zz"], ["a +", "$ ]"], ["f(a) g(b)", "1 2"]]
+        for i in range(ctx.per_shard(ctx.pick(60, 1200))):
+            e = rand_tree(rng, rng.randint(1, 3), ctx.hist)
+            if isinstance(e, p.Expression):
+                ctx.run("C06.reread", (e, junks[i % len(junks)]))
         # random deep trees
         for i in range(ctx.per_shard(ctx.pick(4000, 80000))):
             e = rand_tree(rng, rng.randint(2, ctx.pick(5, 7)), ctx.hist)
@@ -473,6 +515,7 @@ def workload(ctx):
         for k, v in tr.handlers().items():
             ctx.count("handler:" + k, v)
     ctx.floor("wide_nodes", 2000)
+    ctx.floor("refused_between_reads", 80)
     ctx.floor("hook_roundtrips", 300)
     ctx.floor("long_names_and_big_constants", 60)
     ctx.floor("reused_printer_calls", 500)
